@@ -505,7 +505,12 @@ func run(c *fw.Ctx) {
 	}
 	// 4b. deep families
 	for _, fam := range deepFamilies {
-		for _, n := range []int{1000000, 3000000}[:c.Pick(1, 2)] {
+		// (3*10^6 levels of the right-nesting families need more than the worker's 7 GB
+		// address space for the generated parser's value stack, which grows by doubling
+		// at about 1 KB per entry: a resource bill, not a crash, and not what this
+		// family is after - unguarded recursion already shows at 10^6 under the 64 MB
+		// stack limit. The thorough tier adds a second size below, not above.)
+		for _, n := range []int{1000000, 600000}[:c.Pick(1, 2)] {
 			idx++
 			if !c.Mine(idx) {
 				continue
